@@ -270,7 +270,7 @@ def geometry_module(pid, geo, peers):
 
 OBS_INVARIANTS = ('TypeOK OwnedImpliesStored ServedImpliesStored AdvertisedImpliesStored SilentBeforeHandshake NoDataBeforeHandshake '
                   'OwnHandshakeFirst ServeOnlyUnchoked DeferredWhileChoked ReservedBacked AskOnlyAdvertisedAndLacked NoPanic SlotBound '
-                  'KaBound ExtractOnlyComplete ObsRxShape ObsAnnPrefix')
+                  'KaBound ExtractOnlyComplete ObsRxShape ObsAnnPrefix ObsBackedOnWire')
 OBS_PROPERTIES = ('THaveStable RotationPolicy ObsDisk ObsBadHandshake ObsServe ObsTile ObsComplete ObsBitfield ObsAnnAtRest '
                   'ObsPick ObsPickNone ObsViewAtRest ObsKeepAlive ObsNoAbandon')
 
@@ -330,7 +330,7 @@ INV_PROP = {
     'NoPanic': 'C12', 'ExtractOnlyComplete': 'C01', 'PickSound': 'C13', 'SlotBound': 'C14', 'ViewAgreement': 'C14', 'KaBound': 'C20', 'HaveStable': 'C12', 'THaveStable': 'C12', 'RotationPolicy': 'C14', 'TypeOK': 'C12',
     'ObsDisk': 'C01', 'ObsBadHandshake': 'C08', 'ObsServe': 'C09', 'ObsRxShape': 'C10', 'ObsTile': 'C10', 'ObsComplete': 'C10',
     'ObsBitfield': 'C11', 'ObsAnnPrefix': 'C11', 'ObsAnnAtRest': 'C11', 'ObsPick': 'C13', 'ObsPickNone': 'C13', 'ObsViewAtRest': 'C14',
-    'ObsKeepAlive': 'C20', 'ObsNoAbandon': 'C10',
+    'ObsKeepAlive': 'C20', 'ObsNoAbandon': 'C10', 'ObsBackedOnWire': 'C12',
 }
 
 
